@@ -521,6 +521,27 @@ static Plan make_C20(u64 seed, int variant) {
     // per task scripts: the walk alternates tasks, each touches only its own slots
     Weights w; w.enable = 0; w.inject = 0; w.langq = 1; w.create = 10; w.decode = 14; w.decodebad = 6; w.encode = 10; w.keygen = 8; w.crypt = 6; w.load = 6; w.store = 5; w.free_ = 6; w.fabricate = 4;
     int per = 3 + (int)g.rng.below(6);
+    if (variant % 3 == 1) {
+        // concentrate all threads on one or two entry points, so that they meet inside the same code
+        for (int t = 0; t < g.ntasks; ++t) { if (g.rng.chance(1, 2)) g.create(t, 0, g.rng.below(8), g.secret_kind(), {g.clock_reading()}); else g.load_seed(t, 0, g.fabricate((unsigned)g.rng.below(8))); }
+        int k1 = (int)g.rng.below(7), k2 = (int)g.rng.below(7);
+        for (int i = 0; i < per; ++i) for (int t = 0; t < g.ntasks; ++t) {
+            if (!g.live(t, 0)) continue;
+            int k = g.rng.chance(1, 2) ? k1 : k2;
+            AbsSeed sd = g.seeds[{t, 0}];
+            int li = g.pick_lang(); unsigned coin = g.pick_coin();
+            switch (k) {
+            case 0: g.keygen(t, 0, coin, 32); break;
+            case 1: g.encode(t, 0, li, coin); break;
+            case 2: if (g.live(t, 1)) g.free_seed(t, 1); g.decode(t, 1, g.valid_phrase(sd, li, coin, (int)g.rng.below(64)), coin, -1); break;
+            case 3: if (g.live(t, 1)) g.free_seed(t, 1); g.decode(t, 1, g.valid_phrase(sd, li, coin, (int)g.rng.below(64)), coin, li); break;
+            case 4: g.crypt(t, 0, g.password()); break;
+            case 5: if (g.live(t, 1)) g.free_seed(t, 1); g.load_seed(t, 1, sd); break;
+            default: g.store(t, 0); if (g.live(t, 2)) g.free_seed(t, 2); g.create(t, 2, g.rng.below(8), g.secret_kind(), {g.clock_reading()}); break;
+            }
+        }
+        return g.plan;
+    }
     walk(g, per * g.ntasks, w, false);
     return g.plan;
 }
